@@ -24,16 +24,32 @@ NEEDS = {
  'C19': "distance_to_similarity(method='reverse') with the default scale and min(D) > 0",
  'C20': 'a multivariate (2-D) Fortran-ordered or transposed NumPy series passed to a *_fast / use_c=True routine',
 }
+NEEDS.update({
+ 'C02b': "C engine with inner_dist='euclidean' and a penalty other than 0/1 on a pair whose optimal path has non-diagonal steps (the *_euclidean kernels square the penalty)",
+ 'C04b': 'C full matrix obtained through expansion of the compact matrix with len1 > len2 and a window narrow enough for region C rows and an unclamped compact width (e.g. 5x4, window 1)',
+ 'C05b': 'C best-path routines with a window smaller than the series (region D rows) where left < up < diagonal on the path; no penalty or psi needed',
+ 'C06b': 'Python serial engine, compact=True, non-triangular block ((rb,re),(cb,ce),False) with re > ce',
+ 'C09b': 'C engine, multivariate series (ndim >= 2) of unequal length with the shorter series having >= 2 points: ed_cc.distance_ndim / ub_euclidean_ndim / only_ub / use_pruning',
+ 'C12b': 'C dtw_dba_matrix (series in a matrix container) with an average whose length differs from the series length',
+ 'C13b': 'kbest_matches / best_matches with maxlength given and a candidate match of exactly maxlength + 1 samples',
+ 'C14b': 'Python lb_keogh (use_lb=True, Python engine) with a finite window and candidate length different from the query length',
+ 'C15b': 'HierarchicalTree wrapping a model whose merge_hook returns a (keep, delete) pair that keeps the non-default prototype, with >= 3 series',
+ 'C18b': 'Python warping_paths_affinity with penalty > 0 and a first-row/column cell whose only finite neighbour is below the penalty',
+ 'C19b': "squash(method='logistic', keep_sign=True) on an input containing an exact zero",
+ 'C20b': 'one SubsequenceSearch object: a k-limited query (best_match / kbest_matches(k)) followed by kbest_matches(k=None)',
+})
 EXTRA = {'C02': ['C10'], 'C10': ['C02'], 'C11': ['C09']}   # cross detections confirmed by hand earlier
+ROUND2_NOTE = ('round 2: run against the scratch worktree that carries the change (VERIF_REPO=/tmp/wt_<id>, sources compiled from there) while /repo '
+               'was busy with thorough runs; see DESIGN 9.5 for the later run with the change applied to /repo')
 
 def main():
     sweep = {}
-    for f in glob.glob('/tmp/sweep_*.log'):
+    for f in glob.glob('/tmp/sweep_*.log') + glob.glob('/tmp/sweep_wt*.log') + glob.glob('/tmp/sweep2_*.log'):
         for line in open(f):
-            m = re.match(r'mutation=(C\d+) check=(C\d+) rc=(\d+)\s*(.*)', line)
+            m = re.match(r'mutation=(C\d+b?) check=(C\d+) rc=(\d+)\s*(.*)', line)
             if m:
                 sweep.setdefault(m.group(1), {})[m.group(2)] = (int(m.group(3)), m.group(4).strip())
-    for pid in sorted(NEEDS):
+    for pid in sorted(p_ for p_ in NEEDS if (p_.endswith("b") or not os.environ.get("ROUND2"))):
         d = os.path.join(ROOT, 'seeded', pid)
         files = [l[6:].strip() for l in open(os.path.join(d, 'patch.diff')) if l.startswith('+++ b/')]
         conf = open(os.path.join(d, 'confirm.log')).read() if os.path.exists(os.path.join(d, 'confirm.log')) else ''
@@ -41,8 +57,8 @@ def main():
         for c, (rc, v) in sorted(sweep.get(pid, {}).items()):
             caught[c] = {'exit': rc, 'first_violation': re.sub(r'^violated:\s*', '', v)}
         meta = {
-            'property': pid,
-            'property_title': PROPS[pid].get('title', ''),
+            'property': pid[:3],
+            'property_title': PROPS[pid[:3]].get('title', ''),
             'files_changed': files,
             'needs_to_manifest': NEEDS[pid],
             'written_by': 'sub-agent given only the property text and a scratch worktree of /repo (no access to /verif)',
@@ -54,6 +70,7 @@ def main():
             },
             'checks_run_with_change_applied_to_repo': caught,
             'caught_by': sorted(set([c for c, x in caught.items() if x['exit'] == 1] + EXTRA.get(pid, []))),
+            'how_run': ROUND2_NOTE if pid.endswith('b') else 'change applied to /repo with git apply, check run, git checkout -- .',
             'notes': 'git -C /repo apply seeded/%s/patch.diff; ./check <ID>; git -C /repo checkout -- .' % pid,
         }
         json.dump(meta, open(os.path.join(d, 'meta.json'), 'w'), indent=1)
